@@ -44,7 +44,10 @@ Definition tree_step (store : list (option ds)) (s : tstep) : list (option ds) *
   match s with
   | TOp p OMaterialize =>
       match lookup store p with
-      | Some d => let d' := materialize d in (set_nth store p (Some d'), observe d')
+      | Some d => match materialize d with
+                  | Some d' => (set_nth store p (Some d'), observe d')
+                  | None => (store, OErr)
+                  end
       | None => (store, OErr)
       end
   | TOp p o =>
